@@ -12,6 +12,49 @@ type modSet struct {
 	objs   map[types.Object]bool
 	ghosts map[string]bool
 	direct map[types.Object]bool // the variable itself is assigned (not just something reachable from it)
+	fields map[types.Object]map[string]bool // struct fields written through root.Field... assignments
+	whole  map[types.Object]bool            // modified in some other way (call with modifies, alias, index, direct)
+}
+
+// firstField: e is root.F, root.F[i], root.F.G ... with root a (pointer to) struct variable; returns F.
+func (fv *FV) firstField(e ast.Expr) (string, bool) {
+	var last *ast.SelectorExpr
+	for {
+		switch x := e.(type) {
+		case *ast.ParenExpr:
+			e = x.X
+		case *ast.SelectorExpr:
+			if fv.info.Selections[x] == nil {
+				return "", false
+			}
+			last = x
+			e = x.X
+		case *ast.IndexExpr:
+			last = nil
+			e = x.X
+			// an element write root.F[i] = v modifies field F (slice/map contents reached through it)
+			if sel, ok := stripParens(x.X).(*ast.SelectorExpr); ok && fv.info.Selections[sel] != nil {
+				if _, isID := stripParens(sel.X).(*ast.Ident); isID {
+					return sel.Sel.Name, true
+				}
+			}
+		case *ast.Ident:
+			if last == nil {
+				return "", false
+			}
+			if _, isID := stripParens(last.X).(*ast.Ident); !isID {
+				return "", false
+			}
+			if sel := fv.info.Selections[last]; sel != nil && len(sel.Index()) == 1 {
+				if _, isVar := sel.Obj().(*types.Var); isVar {
+					return last.Sel.Name, true
+				}
+			}
+			return "", false
+		default:
+			return "", false
+		}
+	}
 }
 
 func (fv *FV) rootObj(e ast.Expr) types.Object {
@@ -54,10 +97,18 @@ func (fv *FV) rootObj(e ast.Expr) types.Object {
 }
 
 func (fv *FV) modifiedIn(nodes ...ast.Node) *modSet {
-	ms := &modSet{objs: map[types.Object]bool{}, ghosts: map[string]bool{}, direct: map[types.Object]bool{}}
+	ms := &modSet{objs: map[types.Object]bool{}, ghosts: map[string]bool{}, direct: map[types.Object]bool{}, fields: map[types.Object]map[string]bool{}, whole: map[types.Object]bool{}}
 	add := func(e ast.Expr) {
 		if o := fv.rootObj(e); o != nil {
 			ms.objs[o] = true
+			if f, ok := fv.firstField(stripParens(e)); ok {
+				if ms.fields[o] == nil {
+					ms.fields[o] = map[string]bool{}
+				}
+				ms.fields[o][f] = true
+			} else {
+				ms.whole[o] = true
+			}
 			if _, isID := stripParens(e).(*ast.Ident); isID {
 				ms.direct[o] = true
 			}
@@ -104,6 +155,7 @@ func (fv *FV) modifiedIn(nodes ...ast.Node) *modSet {
 			for o := range ms.objs {
 				if r, ok := aliasOf[o]; ok && !ms.objs[r] {
 					ms.objs[r] = true
+					ms.whole[r] = true
 					changed = true
 				}
 			}
@@ -167,6 +219,7 @@ func (fv *FV) callMods(call *ast.CallExpr, ms *modSet) {
 			if (o.Name() == "delete" || o.Name() == "copy" || o.Name() == "clear") && len(call.Args) > 0 {
 				if r := fv.rootObj(call.Args[0]); r != nil {
 					ms.objs[r] = true
+					ms.whole[r] = true
 				}
 			}
 		}
@@ -185,6 +238,15 @@ func (fv *FV) callMods(call *ast.CallExpr, ms *modSet) {
 		sub := fv.modifiedIn(f.Body)
 		for o := range sub.objs {
 			ms.objs[o] = true
+			if sub.whole[o] {
+				ms.whole[o] = true
+			}
+			for f := range sub.fields[o] {
+				if ms.fields[o] == nil {
+					ms.fields[o] = map[string]bool{}
+				}
+				ms.fields[o][f] = true
+			}
 		}
 		for o := range sub.direct {
 			ms.direct[o] = true
@@ -205,12 +267,14 @@ func (fv *FV) callMods(call *ast.CallExpr, ms *modSet) {
 			if m == fc.RecvName && recv != nil {
 				if r := fv.rootObj(recv); r != nil {
 					ms.objs[r] = true
+					ms.whole[r] = true
 				}
 			}
 			for i, pn := range fc.Params {
 				if pn == m && i < len(call.Args) {
 					if r := fv.rootObj(call.Args[i]); r != nil {
 						ms.objs[r] = true
+						ms.whole[r] = true
 					}
 				}
 			}
@@ -221,6 +285,7 @@ func (fv *FV) callMods(call *ast.CallExpr, ms *modSet) {
 	if callee.Pkg() != nil && callee.Pkg().Path() == "math/big" && recv != nil {
 		if r := fv.rootObj(recv); r != nil {
 			ms.objs[r] = true
+			ms.whole[r] = true
 		}
 		return
 	}
@@ -236,6 +301,7 @@ func (fv *FV) callMods(call *ast.CallExpr, ms *modSet) {
 			if _, isPtr := sig.Recv().Type().Underlying().(*types.Pointer); isPtr {
 				if r := fv.rootObj(recv); r != nil {
 					ms.objs[r] = true
+					ms.whole[r] = true
 				}
 			}
 		}
@@ -245,6 +311,7 @@ func (fv *FV) callMods(call *ast.CallExpr, ms *modSet) {
 			if so := fv.ss.Of(t); isRefKind(so) {
 				if r := fv.rootObj(a); r != nil {
 					ms.objs[r] = true
+					ms.whole[r] = true
 				}
 			}
 		}
@@ -315,6 +382,21 @@ func (fv *FV) havoc(st *State, ms *modSet) {
 		nv := fv.fresh(root.Name(), cur.Sort)
 		oldVals[root] = cur
 		st.vars[root] = nv
+		if root == o && ms.whole != nil && !ms.whole[root] && len(ms.fields[root]) > 0 && !ms.direct[root] {
+			// only some fields of the struct are assigned in the loop: the others keep their values
+			sv, so := cur, cur.Sort
+			nsv := nv
+			if so.Kind == KPtr && so.Elem != nil && so.Elem.Kind == KStruct {
+				sv, nsv, so = ptrDrf(cur), ptrDrf(nv), so.Elem
+			}
+			if so.Kind == KStruct {
+				for _, f := range so.Fields {
+					if !ms.fields[root][f.Name] {
+						st.assume(tEq(Term{sx(f.Acc, nsv.S), f.Sort}, Term{sx(f.Acc, sv.S), f.Sort}))
+					}
+				}
+			}
+		}
 		if cur.Sort.Kind == KPtr && (ms.direct == nil || !ms.direct[root]) {
 			// only the pointee is modified: the pointer keeps its nil-ness
 			st.assume(tEq(tEq(nv, ptrNil(cur.Sort)), tEq(cur, ptrNil(cur.Sort))))
